@@ -196,59 +196,63 @@ def run_case(case):
     with env.Capture() as cap:
         if case["fam"] == "gen":
             rng = np.random.default_rng(case["seed"])
-            at = scen.base_tissue(rng, ["vor", "arc"][int(rng.integers(2))], ncells=int(rng.integers(6, 70)))
-            if rng.random() < 0.4:
-                at = at.sub(tissue.random_connected_subset(rng, at, int(rng.integers(1, len(at.cells) + 1))))
-            density = ["all", "all", "none", "mixed"][int(rng.integers(4))]
-            orphans = int(rng.integers(0, 5)) if rng.random() < 0.5 else 0
-            cscale = float(10 ** rng.uniform(-3, 6)) if rng.random() < 0.4 else 1.0
-            kmax = int(rng.integers(0, 12))
-            rec = gse.records_from_tissue(rng, at, k=(0, kmax), id_gaps=bool(rng.random() < 0.7), density=density,
-                                          orphans=orphans, coord_scale=cscale, neg_refs=bool(rng.random() < 0.8))
-            extra_real_edge = False
-            if rng.random() < 0.15 and len(rec["V"]) > 6:
-                # an unattached edge between two vertices that DO belong to faces
-                vids = [v for v in rec["V"] if v not in rec["orphan_v"]]
-                a, b = (int(x) for x in rng.choice(vids, size=2, replace=False))
-                have = {frozenset((p, q)) for p, q, _ in rec["Ed"].values()}
-                if frozenset((a, b)) not in have:
-                    rec["Ed"][max(rec["Ed"]) + 1] = (a, b, 1.0 if density != "none" else None)
-                    extra_real_edge = True
-            wrap = int(rng.integers(3, 41))
-            own = bool(rng.random() < 0.3)
-            style = ["g", "fixed", "sci", "repr"][int(rng.integers(4))]
-            original = bool(rng.random() < 0.3)
             tmp = tempfile.mkdtemp(prefix="fv-c14-")
             path = os.path.join(tmp, "t.dmp")
-            gse.write_dump(path, rec["V"], rec["Ed"], rec["F"], rec["B"], wrap=wrap, area_own_line=own, original=original,
-                           numstyle=style)
-            # the records as the FILE states them (numbers as printed)
-            rec_file = reparse(path)
-            if rec_file["F"] != rec["F"] or set(rec_file["V"]) != set(rec["V"]) or set(rec_file["Ed"]) != set(rec["Ed"]):
-                return {"status": "inconclusive", "reason": "serialiser-reparse-mismatch"}
-            CTX["rec"] = rec_file
-            try:
-                lat = se.SurfaceEvolver(path)
-            except Exception as exc:
-                import traceback
-                mech = "parse-raises"
-                tb = traceback.format_exc()
-                if density in ("none", "mixed") and isinstance(exc, IndexError) and "get_edges" in tb:
-                    mech = "F-SE-NODENSITY"
-                mon.fail(mech, "the dump is parsed", exc=repr(exc)[:160], density=density, wrap=wrap, own=own, style=style,
-                         tb=tb[-400:])
-                lat = None
-            CTX.pop("rec", None)
-            if lat is not None and not mon.fails:
+            # sometimes a SECOND, different dump is written to the same path and parsed in the same process
+            reps = 2 if case["seed"][2] % 4 == 3 else 1
+            hist["same-path-rewritten"] = int(reps == 2)
+            for _rep in range(reps):
+                at = scen.base_tissue(rng, ["vor", "arc"][int(rng.integers(2))], ncells=int(rng.integers(6, 70)))
+                if rng.random() < 0.4:
+                    at = at.sub(tissue.random_connected_subset(rng, at, int(rng.integers(1, len(at.cells) + 1))))
+                density = ["all", "all", "none", "mixed"][int(rng.integers(4))]
+                orphans = int(rng.integers(0, 5)) if rng.random() < 0.5 else 0
+                cscale = float(10 ** rng.uniform(-3, 6)) if rng.random() < 0.4 else 1.0
+                kmax = int(rng.integers(0, 12))
+                rec = gse.records_from_tissue(rng, at, k=(0, kmax), id_gaps=bool(rng.random() < 0.7), density=density,
+                                              orphans=orphans, coord_scale=cscale, neg_refs=bool(rng.random() < 0.8))
+                extra_real_edge = False
+                if rng.random() < 0.15 and len(rec["V"]) > 6:
+                    # an unattached edge between two vertices that DO belong to faces
+                    vids = [v for v in rec["V"] if v not in rec["orphan_v"]]
+                    a, b = (int(x) for x in rng.choice(vids, size=2, replace=False))
+                    have = {frozenset((p, q)) for p, q, _ in rec["Ed"].values()}
+                    if frozenset((a, b)) not in have:
+                        rec["Ed"][max(rec["Ed"]) + 1] = (a, b, 1.0 if density != "none" else None)
+                        extra_real_edge = True
+                wrap = int(rng.integers(3, 41))
+                own = bool(rng.random() < 0.3)
+                style = ["g", "fixed", "sci", "repr"][int(rng.integers(4))]
+                original = bool(rng.random() < 0.3)
+                gse.write_dump(path, rec["V"], rec["Ed"], rec["F"], rec["B"], wrap=wrap, area_own_line=own, original=original,
+                               numstyle=style)
+                # the records as the FILE states them (numbers as printed)
+                rec_file = reparse(path)
+                if rec_file["F"] != rec["F"] or set(rec_file["V"]) != set(rec["V"]) or set(rec_file["Ed"]) != set(rec["Ed"]):
+                    return {"status": "inconclusive", "reason": "serialiser-reparse-mismatch"}
+                CTX["rec"] = rec_file
                 try:
-                    _gt_check(mon, lat)
+                    lat = se.SurfaceEvolver(path)
                 except Exception as exc:
                     import traceback
-                    mon.fail("frame-raises", "a frame can be built from the parsed mesh", exc=repr(exc)[:160],
-                             tb=traceback.format_exc()[-400:])
-            hist["density:" + density] = 1
-            hist["extra-real-edge"] = int(extra_real_edge)
-            sigs.append([len(rec["F"]), len(rec["V"]), wrap, density, orphans, own, style, original])
+                    mech = "parse-raises"
+                    tb = traceback.format_exc()
+                    if density in ("none", "mixed") and isinstance(exc, IndexError) and "get_edges" in tb:
+                        mech = "F-SE-NODENSITY"
+                    mon.fail(mech, "the dump is parsed", exc=repr(exc)[:160], density=density, wrap=wrap, own=own, style=style,
+                             tb=tb[-400:])
+                    lat = None
+                CTX.pop("rec", None)
+                if lat is not None and not mon.fails:
+                    try:
+                        _gt_check(mon, lat)
+                    except Exception as exc:
+                        import traceback
+                        mon.fail("frame-raises", "a frame can be built from the parsed mesh", exc=repr(exc)[:160],
+                                 tb=traceback.format_exc()[-400:])
+                hist["density:" + density] = 1
+                hist["extra-real-edge"] = int(extra_real_edge)
+                sigs.append([len(rec["F"]), len(rec["V"]), wrap, density, orphans, own, style, original])
         else:
             path = os.path.join(FIX, case["file"])
             CTX["rec"] = reparse(path)
